@@ -129,6 +129,7 @@ MISSED_FIRST.update({
  "C11-I": "attribute names were at most 5 bytes; generated lists now repeat keys of 63..130 bytes",
  "C11-J": "CR never stood directly behind an unquoted value or between attributes; separators now include CR and CR LF",
  "C12-J": "only the first event behind a skipped element was compared; now the whole remaining trace of the clone must equal the uncloned run's (open-element stack damage shows at the parent's end tag)",
+ "C15-J": "C15 had no document with xsi:nil (the only place where the deserializer looks at namespaces); its base documents now also come with xsi:nil elements for absent optional children, and an unknown child inserted in front of one exposes the change. C05, whose statement (what stays in scope after NsReader::read_to_end) it breaks as well, reports it too",
  "C17-I": "the state-machine probe only had a first declaration that changes the encoding; it now runs every (first label incl. UTF-8 with and without BOM, second label) pair on slice and buffered sources",
  "C17-J": "payloads were at most 5 characters (an attempt at long ones stopped at ~200); now one document in 25 has payloads of 400..1200 characters, and decode_into must agree with decode on every payload",
  "C19-I": "no $text variant that is a tuple stood in a $value list; TextListVar serialize-only shapes added (strengthened before the first run)",
@@ -137,11 +138,18 @@ MISSED_FIRST.update({
  "C20-H": "not detected in round 6 (no xsi:nil element was ever buffered); same strengthening as C20-G, plus the wrapped shapes that declare the xsi prefix on an ancestor (on the container itself the unchanged tree already fails: known finding F12)",
  "C20-J": "no container was a map or a struct with a flattened member; WrapOvlFlat and WrapOvlMap shapes added (strengthened before the first run)",
 })
+MISSED_FIRST.update({
+ "C06-L": "no type had a struct variant with a $value list of its own inside a $value list; recursive Tree family type added (predicted from the agent's summary, strengthened before the first run)",
+ "C07-K": "C07 never set an event buffer limit; a quarter of its from_str calls now go through a Deserializer with event_buffer_size 1..=12 (strengthened before the first run; C20 reports the change too)",
+ "C14-K": "no document spelled a boolean as 1 / 0; the token mutator now also replaces a text by another spelling of the same value (1/0/True, sign, leading zero, exponent, blanks, NBSP) (strengthened before the first run)",
+ "C15-K": "no check used a deserializer with a custom EntityResolver; C15 now rewrites base documents in which a piece of a text is a reference to a DOCTYPE-declared entity and judges them through Deserializer::from_str_with_resolver / with_resolver (strengthened before the first run)",
+})
 NOT_OWN.update({
- "C15-J": "the change is in NamespaceResolver::pop_to (NsReader::read_to_end), i.e. C05's statement, and C05 reports it; for the deserializer it only matters through xsi:nil on hand-written documents",
+ "C06-K": "the change only affects a `char` list item that is a blank; list items with whitespace are outside C06's round-trip domain (documented: list items never contain whitespace), so C06 does not generate them. C13, whose statement (no payload can change the structure; the payload found at a list-item slot is the one put there) it breaks, reports it",
 })
 OBSOLETE = {
  "C15-I": "confirmed and detected by C15 on the tree it was written for (53ee924); it only made the defective Content::Owned arm of ListIter reachable, and that arm was repaired as F13 (5256764): on the repaired tree the change is harmless (its own demo passes with it, CONFIRM-on-repaired-tree-5256764.txt)",
+ "C15-F": "round 4, detected by C15 on the trees up to 5256764. The change drops the `continue` for a text that trimming made empty, arguing that whitespace after markup is already dropped by the start trimmer; that was false after a skipped element, which is what its demo used. The repair F14 (5c98377) makes the argument true, so on the current tree the change is harmless (its own demo passes with it, CONFIRM-on-repaired-tree-5c98377.txt)",
  "C14-D": "round 2, detected by C14 on the trees up to 5256764: it added a start-trimmer reset to IoReader::read_to_end only. The repair F14 (5c98377) adds that reset to both readers, so the patch no longer applies and the difference it created cannot exist any more",
  "C14-J": "written against 5256764: it added the start-trimmer reset to IoReader::read_to_end only. The repair F14 (5c98377) adds that reset to both readers, so the patch no longer applies and the difference it created cannot exist; detected by C14 on the tree it was written for",
 }
